@@ -319,6 +319,29 @@ def gen_sequence(rng, weather_ok: bool):
     return {'flights': flights}
 
 
+def gen_retry_sequence(rng, canonical=False):
+    """use_weather histories in which the SAME refused mission is flown again right away (a caller's retry): a mission whose
+    departure day has no weather file twice or three times in a row, also with a flight in between that is refused
+    before any weather is asked for (unknown airport) so that the missing day is still the last one the weather reader
+    was asked for; successful flights before, between and after.  canonical: good, bad, bad, good, bad, bad, good."""
+    opts = gen_opts(rng, True)
+    good = lambda: {'kind': 'valid', 'o': 'BOS', 'd': 'JFK', 'lf': 1.0}  # noqa: E731
+    day = '2024-09-02' if canonical else rng.choice(['2024-09-02', '2024-09-03', '2024-08-31', '2025-01-15'])
+    hour = '12:00:00' if canonical else rng.choice(['12:00:00', '00:00:00', '06:30:00'])
+    bad = lambda: {'kind': 'missing-weather-file', 'o': 'BOS', 'd': 'JFK', 'lf': 1.0, 'dep': f'{day}T{hour}'}  # noqa: E731
+    unk = lambda: {'kind': 'unknown-airport', 'o': 'BOS', 'd': 'QQQ', 'lf': 1.0}  # noqa: E731
+    if canonical:
+        shape = 'gbbgbbg'
+    else:
+        shape = rng.choice(['bb', 'bbb', 'gbb', 'bbg', 'gbbg', 'bubg', 'gbubbg', 'bgbb', 'gbbgbbg', 'ubb', 'bbub'])
+    flights = []
+    for ch in shape:
+        fl = {'g': good, 'b': bad, 'u': unk}[ch]()
+        fl['opts'] = opts
+        flights.append(fl)
+    return {'flights': flights, 'shape': 'retry:' + shape}
+
+
 # ----------------------------------------------------------------------------------------------
 # check
 # ----------------------------------------------------------------------------------------------
@@ -410,6 +433,8 @@ def check_sequences(chk: Check, seqs, guarded: bool, gfix: bool, wx: Path):
             chk.count('flight:' + k)
         o0 = flights[0]['opts']
         chk.count('builder:' + ('weather' if o0['use_weather'] else 'iterate' if o0['iterate'] else 'plain'))
+        if seq.get('shape'):
+            chk.count('history:same-refused-mission-flown-again-at-once')
         if any(fl['opts'] != o0 for fl in flights):
             chk.count('builder:options-switched')
         if len({json.dumps(fl.get('table'), sort_keys=True) for fl in flights}) > 1:
@@ -568,7 +593,8 @@ def common_setup(chk: Check):
     chk.rule = ('sequences of 2-8 flights on one LegacyBuilder (valid, unknown airport, airport above cruise level, '
                 'outside the performance envelope, too short, missing weather directory / file, outside the weather '
                 'domain, non-converging mass iteration; iteration on/off with several limits and tolerances; '
-                'weather on/off), each flight repeated on a brand-new builder and its context constructor called '
+                'weather on/off; with weather also the same mission refused for a missing weather file flown two or three times in '
+                'a row between successful flights), each flight repeated on a brand-new builder and its context constructor called '
                 'directly; non-trivial = a flight is flown after an earlier one failed, with at least two kinds of '
                 'flight in the sequence')
     chk.trusted += ['translator/c17_extract.py (names written/read through self, fields of the context, finally clause)',
@@ -604,6 +630,10 @@ def run(chk: Check):
                        f"extracted given-mass handling derived={facts['given_fix']} but a given starting mass behaves as {behg}")
         seqs = load_corpus(chk)
         nw = chk.n(2, 12)
+        # retries of a mission refused for missing weather (own PRNG stream: the ordinary stream is what it was)
+        import random
+        rrng = random.Random(f'C17-retry-{chk.seed}')
+        seqs += [gen_retry_sequence(rrng, canonical=(i == 0)) for i in range(chk.n(3, 16))]
         seqs += [gen_sequence(chk.rng, weather_ok=(i < nw)) for i in range(chk.n(32, 400))]
         check_sequences(chk, seqs, guarded, gfix, wx)
         check_against_fresh_process(chk, wx)
